@@ -591,7 +591,101 @@ pub fn c14(ctx: &mut Ctx) {
             Err(pi) => l.subject_panic("compound", &pi, || format!("{} large-member list", ms.len())),
         }
     });
+    // third-party writers whose images are not whole packets (1..=8 bytes, e.g. a header writer and a body writer
+    // that produce one packet between them): "size = sum of the members' sizes, bytes = the members' images
+    // concatenated" says nothing about alignment. A builder that refuses such a list is not judged (three-valued);
+    // one that accepts it must write exactly the concatenation.
+    {
+        let frags: Vec<Vec<u8>> = vec![
+            vec![0xAA],
+            vec![0x80, 0xF2],
+            vec![0x00, 0x01, 0x5A],
+            vec![0x80, 0xF2, 0x00, 0x01, 0x5A, 0x5A],
+            vec![0x80, 0xF2, 0x00, 0x01, 0x5A, 0x5A, 0x5A],
+            vec![0x5A, 0x5A],
+            vec![0x80, 0xF2, 0x00, 0x01, 1, 2, 3, 4],
+            vec![0x80, 203, 0, 0],
+        ];
+        // kinds 0..=7: fragments; 8: the crate's own BYE builder; 9: nested compound [7-byte fragment, 1-byte fragment]
+        const FK: u64 = 10;
+        let fd = 4u32;
+        ctx.bound("fragment writers", "lists of length 1..=4 over {third-party writers of 1,2,3,6,7,2,8,4 bytes, a BYE builder, a nested compound of a 7-byte and a 1-byte writer}");
+        let nseq = seq_count(FK, fd);
+        ctx.run_space("compound-lists-of-fragment-writers", nseq, |idx, l| {
+            let seq = seq_decode(FK, idx);
+            l.evals += 1;
+            l.states += 1;
+            l.sample(|| format!("fragment list {:?}", seq));
+            let show = || format!("member kinds {:?} (0..=7: third-party writers of 1,2,3,6,7,2,8,4 bytes; 8: BYE builder; 9: nested [7-byte, 1-byte])", seq);
+            let mut cb = Compound::builder();
+            let mut concat: Vec<u8> = Vec::new();
+            for k in &seq {
+                match *k {
+                    8 => {
+                        cb = cb.add_packet(Bye::builder().add_source(0x0102_0304));
+                        concat.extend_from_slice(&[0x81, 203, 0, 1, 1, 2, 3, 4]);
+                    }
+                    9 => {
+                        cb = cb.add_packet(Compound::builder().add_packet(FragWriter(frags[4].clone())).add_packet(FragWriter(frags[0].clone())));
+                        concat.extend_from_slice(&frags[4]);
+                        concat.extend_from_slice(&frags[0]);
+                    }
+                    k => {
+                        cb = cb.add_packet(FragWriter(frags[k as usize].clone()));
+                        concat.extend_from_slice(&frags[k as usize]);
+                    }
+                }
+            }
+            l.transitions += 3;
+            let r = guard::catch(|| {
+                let size = cb.calculate_size();
+                let n = match size {
+                    Ok(n) => n,
+                    Err(e) => return Err(format!("{:?}", e)),
+                };
+                let mut exact = vec![0xEEu8; n];
+                let w1 = cb.write_into(&mut exact);
+                let mut roomy = vec![0xEEu8; n + 9];
+                let w2 = cb.write_into(&mut roomy);
+                Ok((n, w1.map_err(|e| format!("{:?}", e)), exact, w2.map_err(|e| format!("{:?}", e)), roomy))
+            });
+            l.validated += 1;
+            match r {
+                Err(pi) => l.subject_panic("compound-of-fragment-writers", &pi, show),
+                Ok(Err(_)) => l.hit("fragment list refused (not judged)"),
+                Ok(Ok((n, w1, exact, w2, roomy))) => {
+                    l.nontrivial(crate::engine::run::fp_combine(fp_bytes(&concat), 0xF4A6));
+                    if n != concat.len() {
+                        l.violation("fragments:size-is-not-the-sum", show, || format!("calculate_size() = {}, the members' sizes add up to {}", n, concat.len()));
+                    } else if w1 != Ok(n) || exact != concat {
+                        l.violation("fragments:bytes-are-not-the-concatenation", show, || format!("write_into(exact buffer) = {:?}, wrote {}, the members' images concatenated are {}", w1, hex_short(&exact), hex_short(&concat)));
+                    } else if w2 != Ok(n) || roomy[..n] != concat[..] || roomy[n..].iter().any(|b| *b != 0xEE) {
+                        l.violation("fragments:roomy-buffer-differs", show, || format!("write_into(buffer of {} bytes) = {:?}, wrote {}", n + 9, w2, hex_short(&roomy)));
+                    } else {
+                        l.hit("fragment list written as the concatenation");
+                    }
+                }
+            }
+        });
+        ctx.require_hit("fragment list written as the concatenation");
+    }
     ctx.require_hit("accepted");
     ctx.require_hit("rejected (a member invalid or padding before the end)");
     ctx.require_hit("parsed back to its members");
+}
+
+/// A third-party writer of a constant byte string of any length (not necessarily a whole packet).
+#[derive(Debug)]
+struct FragWriter(Vec<u8>);
+impl RtcpPacketWriter for FragWriter {
+    fn calculate_size(&self) -> Result<usize, RtcpWriteError> {
+        Ok(self.0.len())
+    }
+    fn write_into_unchecked(&self, buf: &mut [u8]) -> usize {
+        buf[..self.0.len()].copy_from_slice(&self.0);
+        self.0.len()
+    }
+    fn get_padding(&self) -> Option<u8> {
+        None
+    }
 }
